@@ -170,6 +170,14 @@ AddAssigned(p, A) == /\ ~api[p].exists /\ resv[p] = {}
                      /\ api' = [api EXCEPT ![p] = [exists |-> TRUE, node |-> TRUE, term |-> FALSE, alloc |-> A]]
                      /\ UNCHANGED <<total, resv>> /\ EnvExempt
 
+\* C19: the scheduler restarts.  The inventory (Device object) and the pod objects - with the allocation the binding
+\* cycle persisted in their annotation - survive in the API server; what a scheduling cycle held between Reserve and
+\* bind lived only in the scheduler's memory, nothing was persisted for it, and it is lost with the process (the pod
+\* is still unassigned and will be scheduled again).  Everything else the node's ledgers must account for is the same
+\* before and after: no device share taken by a bound pod is free after the restart.
+Restart == /\ resv' = [p \in Pods |-> {}]
+           /\ UNCHANGED <<total, api>> /\ KeepExempt
+
 Init == /\ total = NoDevices
         /\ api = [p \in Pods |-> NoPod]
         /\ resv = [p \in Pods |-> {}]
